@@ -94,31 +94,47 @@ def main():
                 if 'keypoints' not in drop:
                     kw['keypoint_params'] = A.KeypointParams('xyzas', angle_in_degrees=False, remove_invisible=True)
                 return A.Compose([make(s) for s in case['pipeline']], **kw)
-            pipe = build()
+            # which target set does this pipeline accept?  (decided on a throw-away object, so that the object under
+            # test has seen nothing but the history calls below)
+            drop = None
+            # the trial runs on a volume of ANOTHER shape first (process-level state keyed by the shape is then left
+            # untouched for the calls that count); transforms whose arguments need the real shape fall back to it
+            for trial_case in (dict(case, shape=[9, 7, 6], header_variant=5), case):
+                for cand in ((), ('keypoints',), ('bboxes',), ('keypoints', 'bboxes')):
+                    try:
+                        random.seed(999)
+                        ti = inputs(trial_case)
+                        if trial_case is not case:
+                            ti['bboxes'] = [(1.0, 1.0, 1.0, 5.0, 5.0, 4.0, 'a')]
+                            ti['keypoints'] = [k for k in ti['keypoints'] if k[0] < 7 and k[1] < 9 and k[2] < 6][:4] or [(1.0, 1.0, 1.0, 0.3, 1.5)]
+                            for kx in case.get('extra', {}):
+                                ti[kx] = (1, 1, 1, 5, 6, 4)
+                        build(cand)(**{k: v for k, v in ti.items() if k not in cand})
+                        drop = cand
+                        break
+                    except NotImplementedError:
+                        continue
+                    except Exception:  # noqa -- does not run on the small volume: decide on the real one
+                        drop = None
+                        break
+                if drop is not None:
+                    break
+            if drop is None:
+                drop = ()
+            pipe = build(drop)
             for hcall in range(cfg['history']):
                 random.seed(1000 + hcall)
                 # earlier calls on OTHER scans: other voxels, other header values (a cache keyed by too little shows here)
                 hc = dict(case, data_seed=case['data_seed'] + 17 + hcall, header_variant=1 + hcall)
                 try:
-                    pipe(**inputs(hc))
+                    pipe(**{k: v for k, v in inputs(hc).items() if k not in drop})
                 except Exception:  # noqa
                     pass
             np.random.seed(cfg['np_seed'])
-            res = None
-            # transforms that do not support boxes / keypoints are run without them
-            for drop in ((), ('keypoints',), ('bboxes',), ('keypoints', 'bboxes')):
-                data = {k: v for k, v in inputs(case).items() if k not in drop}
-                if drop:
-                    pipe = build(drop)
-                random.seed(case['seed'])
-                st0 = random.getstate()
-                try:
-                    res = pipe(**data)
-                    break
-                except NotImplementedError:
-                    continue
-            if res is None:
-                raise NotImplementedError('no target set runs')
+            data = {k: v for k, v in inputs(case).items() if k not in drop}
+            random.seed(case['seed'])
+            st0 = random.getstate()
+            res = pipe(**data)
             advanced = random.getstate() != st0
             h = hashlib.sha1()
             canon(res, h)
